@@ -11,7 +11,7 @@ import re
 from .. import oracle, pool
 from ..driver import chash, ddmin
 from ..rng import Rng, mix
-from ..sim import (ACT_ERRNO, CLS_CODE, CLS_INC, CLS_LIST, CLS_MAC, CLS_SHARE, EV_CLOSE, EV_OPEN, EV_SEEK, EV_WRITE,
+from ..sim import (ACT_ERRNO, CLS_CODE, CLS_INC, CLS_LIST, CLS_MAC, CLS_MAP, CLS_SHARE, EV_CLOSE, EV_OPEN, EV_SEEK, EV_WRITE,
                    scenario_from_json, scenario_to_json)
 
 ID = "C02"
@@ -334,9 +334,12 @@ def plan(tier, seed):
     thorough = tier == "thorough"
     n = 300000 if thorough else 20000
     cases = [{"gen": "rand", "seed": mix(seed, "c02", i), "n": 25} for i in range(0, n, 25)]
-    nb = len(FAULT_BASES) if thorough else 6
+    nb = len(FAULT_BASES) if thorough else 8
     for bi in range(nb):
-        cases.append({"gen": "faults", "base": bi})
+        cases.append({"gen": "faults", "base": bi, "unbuf": 0})
+        # unbuffered output streams: one write per fprintf, so faults also land in the late parts (symbol table, MAP
+        # file, share trailer) that are written after the code file has been closed
+        cases.append({"gen": "faults", "base": bi, "unbuf": 1})
     for t in ("missing-include", "bad-outdir", "bad-listdir", "unreadable-source"):
         cases.append({"gen": "special", "what": t})
     return cases
@@ -396,6 +399,8 @@ def run_case(sim, case):
         return finish(acc, {"argv": sc["argv"], "sources": {k: v.decode("latin1")[:300] for k, v in sc["disk"].items() if k.endswith(".asm")}})
     if g == "faults":
         base = fault_base_scenario(case["base"])
+        if case.get("unbuf"):
+            base["stdio_buf"] = 1
         names = [a[:-4] for a in base["argv"] if a.endswith(".asm")]
         c0 = {"kind": "explicit", "scenario": scenario_to_json(base), "names": names, "origin": "fault base %s" % FAULT_BASES[case["base"]][0]}
         r0, vs = run_explicit(sim, c0, acc)
@@ -408,7 +413,7 @@ def run_case(sim, case):
         # we do not know file classes from events directly: enumerate (class, op, nth) and stop when the fault
         # no longer fires
         n_fired = 0
-        for cls in (CLS_CODE, CLS_LIST, CLS_SHARE, CLS_INC, CLS_MAC):
+        for cls in (CLS_CODE, CLS_LIST, CLS_SHARE, CLS_INC, CLS_MAC, CLS_MAP):
             for op in (EV_OPEN, EV_WRITE, EV_SEEK, EV_CLOSE):
                 nth = 0
                 while nth < 400:
